@@ -28,6 +28,11 @@ struct CallSpec {
     delay_ms: u64,
     #[serde(default)]
     to_unconnected: bool,
+    /// before this call, move the node's process-number counter forward to just before its
+    /// 2^20 wrap (by this many numbers), so that later reply identifiers re-use earlier numbers
+    /// with the next serial while earlier calls are still outstanding
+    #[serde(default)]
+    jump_to_wrap: u32,
 }
 
 #[derive(Clone, Debug, Serialize, Deserialize, Default)]
@@ -134,7 +139,8 @@ impl Scenario for C17 {
                     4 => timeout_ms * 2,
                     _ => r.below(timeout_ms / 3 + 1),
                 };
-                calls.push(CallSpec { timeout_ms, start_delay_ms: r.below(40), reply, delay_ms, to_unconnected: r.chance(1, 16) });
+                let jump_to_wrap = if r.chance(1, 12) { r.range(1, 4) as u32 } else { 0 };
+                calls.push(CallSpec { timeout_ms, start_delay_ms: r.below(40), reply, delay_ms, to_unconnected: r.chance(1, 16), jump_to_wrap });
             }
             callers.push(calls);
         }
@@ -168,7 +174,7 @@ impl Scenario for C17 {
             components_stubbed: &["TCP (SimNet)", "EPMD (stub)", "remote node: handshake acceptor + rex model with an independent frame/term reader"],
             assumptions: &["the peer ticks every 5 simulated seconds so that the receiver's 10 s read timeout (a C19 question) does not interfere", "RpcTimeout is judged inadmissible only if a reply addressed to the call was written by the peer at least `margin` before the call returned (margin = injected network/yield delay bound)"],
             fault_prefixes: &["fault.", "net."],
-            expected_probes: &["probe.c17.ok", "probe.c17.timeout", "probe.c17.reply_after_timeout_dropped", "probe.c17.duplicate_reply_dropped", "probe.c17.unknown_pid_reply_dropped", "probe.c17.not_connected", "probe.c17.send_failed", "probe.c17.liveness_probe_ok"],
+            expected_probes: &["probe.c17.ok", "probe.c17.timeout", "probe.c17.reply_after_timeout_dropped", "probe.c17.duplicate_reply_dropped", "probe.c17.unknown_pid_reply_dropped", "probe.c17.not_connected", "probe.c17.send_failed", "probe.c17.liveness_probe_ok", "probe.c17.counter_moved_to_wrap"],
         }
     }
 }
@@ -334,8 +340,13 @@ async fn rex(w: Arc<World>, mut conn: ServerConn, p: Arc<Plan>, sh: Arc<Mutex<Sh
                 sends.push((spec.delay_ms + u64::from(w.draw(20)), from.clone(), content(nonce())));
             }
             "unknown_pid" => {
+                // nobody's identifier: far away, or differing from the caller's in one field only
                 let ghost = match &from {
-                    Val::Pid { node, id, serial, creation } => Val::Pid { node: node.clone(), id: id.wrapping_add(500_000), serial: *serial, creation: *creation },
+                    Val::Pid { node, id, serial, creation } => match w.draw(3) {
+                        0 => Val::Pid { node: node.clone(), id: id.wrapping_add(500_000), serial: *serial, creation: *creation },
+                        1 => Val::Pid { node: node.clone(), id: *id, serial: serial.wrapping_add(7), creation: *creation },
+                        _ => Val::Pid { node: node.clone(), id: *id, serial: *serial, creation: creation.wrapping_add(1) },
+                    },
                     other => other.clone(),
                 };
                 sends.push((spec.delay_ms, ghost, content(nonce())));
@@ -402,6 +413,16 @@ async fn scenario(w: &Arc<World>, p: &Plan) {
                     tokio::time::sleep(Duration::from_millis(c.start_delay_ms)).await;
                 }
                 let target = if c.to_unconnected { "ghost@nowhere" } else { PEER_NAME };
+                if c.jump_to_wrap > 0 {
+                    let a = node.verif_pid_allocator();
+                    let cur = a.next_id_test_only().load(std::sync::atomic::Ordering::SeqCst);
+                    let want = 1_048_576u32 - (c.jump_to_wrap - 1);
+                    // only ever forward within the current cycle
+                    if cur < want {
+                        a.next_id_test_only().store(want, std::sync::atomic::Ordering::SeqCst);
+                        w.stat("probe.c17.counter_moved_to_wrap");
+                    }
+                }
                 let t0 = World::now_ms();
                 let r = node
                     .rpc_call_raw_with_timeout(target, "m", "f", vec![OwnedTerm::Integer(ci as i64), OwnedTerm::Integer(ix as i64)], Duration::from_millis(c.timeout_ms))
